@@ -10,10 +10,10 @@ import (
 
 	ledger "github.com/formancehq/ledger/internal"
 	"github.com/formancehq/ledger/internal/engine/command"
-	"github.com/formancehq/ledger/xverif/lib/engineh"
-	"github.com/formancehq/ledger/xverif/lib/memstore"
 	"github.com/formancehq/ledger/internal/storage/ledgerstore"
+	"github.com/formancehq/ledger/xverif/lib/engineh"
 	"github.com/formancehq/ledger/xverif/lib/evid"
+	"github.com/formancehq/ledger/xverif/lib/memstore"
 	"github.com/formancehq/stack/libs/go-libs/bun/bunpaginate"
 	"github.com/formancehq/stack/libs/go-libs/metadata"
 )
@@ -124,20 +124,36 @@ func c13Shapes(thorough bool) (all []logShape, chainAlphabet []logShape) {
 	// chain sub-alphabet: one of each kind/target plus the awkward values
 	d := dates["us"]
 	chainAlphabet = []logShape{
-		{"new", func() *ledger.Log { return ledger.NewTransactionLogWithDate(mkTx(big.NewInt(0), stamps["us"], amounts["1"], metas["ascii"], "r", 1), nil, d) }},
+		{"new", func() *ledger.Log {
+			return ledger.NewTransactionLogWithDate(mkTx(big.NewInt(0), stamps["us"], amounts["1"], metas["ascii"], "r", 1), nil, d)
+		}},
 		{"new-big-offset-ik", func() *ledger.Log {
 			return ledger.NewTransactionLogWithDate(mkTx(big.NewInt(1), stamps["offset"], amounts["2p200"], metas["unicode"], "réf", 2), map[string]metadata.Metadata{"a": {"k": "v"}}, dates["y9999"]).WithIdempotencyKey(keys["unicode"])
 		}},
-		{"new-zero-ts", func() *ledger.Log { return ledger.NewTransactionLogWithDate(mkTx(big.NewInt(2), stamps["zero"], amounts["0"], nil, "", 1), nil, d) }},
-		{"revert", func() *ledger.Log { return ledger.NewRevertedTransactionLog(d, big.NewInt(0), mkTx(big.NewInt(3), stamps["ns"], amounts["1"], ledger.MarkReverts(metadata.Metadata{}, big.NewInt(0)), "", 1)) }},
+		{"new-zero-ts", func() *ledger.Log {
+			return ledger.NewTransactionLogWithDate(mkTx(big.NewInt(2), stamps["zero"], amounts["0"], nil, "", 1), nil, d)
+		}},
+		{"revert", func() *ledger.Log {
+			return ledger.NewRevertedTransactionLog(d, big.NewInt(0), mkTx(big.NewInt(3), stamps["ns"], amounts["1"], ledger.MarkReverts(metadata.Metadata{}, big.NewInt(0)), "", 1))
+		}},
 		{"set-acc", func() *ledger.Log { return ledger.NewSetMetadataOnAccountLog(d, "users:001", metas["ascii"]) }},
-		{"set-acc-unicode-ik", func() *ledger.Log { return ledger.NewSetMetadataOnAccountLog(dates["y1"], "a", metas["unicode"]).WithIdempotencyKey("ik") }},
+		{"set-acc-unicode-ik", func() *ledger.Log {
+			return ledger.NewSetMetadataOnAccountLog(dates["y1"], "a", metas["unicode"]).WithIdempotencyKey("ik")
+		}},
 		{"set-tx", func() *ledger.Log { return ledger.NewSetMetadataOnTransactionLog(d, big.NewInt(0), metas["ascii"]) }},
 		{"set-tx-nilmeta", func() *ledger.Log { return ledger.NewSetMetadataOnTransactionLog(d, big.NewInt(7), nil) }},
-		{"del-acc", func() *ledger.Log { return ledger.NewDeleteMetadataLog(d, ledger.DeleteMetadataLogPayload{TargetType: ledger.MetaTargetTypeAccount, TargetID: "users:001", Key: "k"}) }},
-		{"del-tx", func() *ledger.Log { return ledger.NewDeleteMetadataLog(d, ledger.DeleteMetadataLogPayload{TargetType: ledger.MetaTargetTypeTransaction, TargetID: big.NewInt(0), Key: "k"}) }},
-		{"del-acc-ik", func() *ledger.Log { return ledger.NewDeleteMetadataLog(d, ledger.DeleteMetadataLogPayload{TargetType: ledger.MetaTargetTypeAccount, TargetID: "a", Key: ""}).WithIdempotencyKey("ik2") }},
-		{"new-empty-meta", func() *ledger.Log { return ledger.NewTransactionLogWithDate(mkTx(big.NewInt(4), stamps["y9999"], amounts["2p64"], metas["empty"], "", 1), map[string]metadata.Metadata{}, d) }},
+		{"del-acc", func() *ledger.Log {
+			return ledger.NewDeleteMetadataLog(d, ledger.DeleteMetadataLogPayload{TargetType: ledger.MetaTargetTypeAccount, TargetID: "users:001", Key: "k"})
+		}},
+		{"del-tx", func() *ledger.Log {
+			return ledger.NewDeleteMetadataLog(d, ledger.DeleteMetadataLogPayload{TargetType: ledger.MetaTargetTypeTransaction, TargetID: big.NewInt(0), Key: "k"})
+		}},
+		{"del-acc-ik", func() *ledger.Log {
+			return ledger.NewDeleteMetadataLog(d, ledger.DeleteMetadataLogPayload{TargetType: ledger.MetaTargetTypeAccount, TargetID: "a", Key: ""}).WithIdempotencyKey("ik2")
+		}},
+		{"new-empty-meta", func() *ledger.Log {
+			return ledger.NewTransactionLogWithDate(mkTx(big.NewInt(4), stamps["y9999"], amounts["2p64"], metas["empty"], "", 1), map[string]metadata.Metadata{}, d)
+		}},
 	}
 	return
 }
